@@ -1,0 +1,17 @@
+//go:build verif
+
+package app
+
+import "github.com/prometheus/alertmanager/notify"
+
+// VerifIntegrations, when set by a verification harness, replaces the integrations
+// built for a receiver (the harness keeps name, index and send_resolved and swaps the
+// notifier for a scripted stub).
+var VerifIntegrations func(receiver string, in []notify.Integration) []notify.Integration
+
+func verifIntegrations(receiver string, in []notify.Integration) []notify.Integration {
+	if VerifIntegrations == nil {
+		return in
+	}
+	return VerifIntegrations(receiver, in)
+}
